@@ -1,126 +1,105 @@
-(* JsScope/ResolveIrr.v — the declarative resolver does not look at names that do not occur: adding names X to
-   one scope of the environment does not change the resolution of a program none of whose names is in X
-   (unless the scope has it already).  Used for parameter default values, which the resolver resolves in
-   the scope of the parameters only and the label machine in the complete function scope. *)
+(* JsScope/ResolveIrr.v — the resolver (Spec.resolve_m) looks at the names of a scope only through membership, and
+   only for the names that occur: changing the name list of one scope of the environment, without changing the
+   membership of the names of p, does not change the resolution of p.  Used for parameter default values and
+   loop heads, which the resolver resolves in the scope of the parameters / head declarations only and the
+   label machine in the complete scope; and for class bodies, which declare nothing. *)
 From Verif Require Import Common.Base JsScope.Model JsScope.Spec JsScope.Resolve1.
 
 Lemma mem_app x a b : mem x (a ++ b) = mem x a || mem x b.
 Proof. unfold mem. apply existsb_app. Qed.
 
-Lemma lookup_irrelevant x : forall e1 s a names X e2,
-  (In x X -> In x names) ->
-  lookup (e1 ++ (s, a, names ++ X) :: e2) x = lookup (e1 ++ (s, a, names) :: e2) x.
+Lemma lookup_ext x : forall e1 s a L1 L2 e2,
+  mem x L1 = mem x L2 -> lookup (e1 ++ (s, a, L1) :: e2) x = lookup (e1 ++ (s, a, L2) :: e2) x.
 Proof.
-  induction e1 as [|[[s0 a0] n0] t IH]; intros s a names X e2 H; cbn [app lookup].
-  - rewrite mem_app. destruct (mem x names) eqn:E1; [reflexivity|]. cbn [orb].
-    destruct (mem x X) eqn:E2; [|reflexivity]. apply mem_in in E2. apply H in E2. apply mem_in in E2. congruence.
+  induction e1 as [|[[s0 a0] n0] t IH]; intros s a L1 L2 e2 H; cbn [app lookup].
+  - rewrite H. reflexivity.
   - destruct (mem x n0); [reflexivity|]. apply IH. exact H.
 Qed.
 
-Ltac irr_sub H := intros z Hz; apply H; repeat (apply in_app_iff; first [left; exact Hz|right]); try exact Hz.
+Ltac ext1 IH e1 HH := let E := fresh in
+  pose proof (fun en s a L1 L2 e2 fs cur ca m => IH (en :: e1) s a L1 L2 e2 fs cur ca m) as E; cbn [app] in E; rewrite (E _ _ _ _ _ _ _ _ _ _ HH); clear E.
 
-Lemma resolve_irrelevant p : forall e1 s a names X e2 fs cur ca n,
-  (forall x, In x (allnames p) -> In x X -> In x names) ->
-  resolve (e1 ++ (s, a, names ++ X) :: e2) fs cur ca n p = resolve (e1 ++ (s, a, names) :: e2) fs cur ca n p.
+Lemma resolve_m_ext p : forall e1 s a L1 L2 e2 fs cur ca n,
+  (forall x, In x (allnames p) -> mem x L1 = mem x L2) ->
+  resolve_m (e1 ++ (s, a, L1) :: e2) fs cur ca n p = resolve_m (e1 ++ (s, a, L2) :: e2) fs cur ca n p.
 Proof.
-  induction p; intros e1 s a names X e2 fs cur ca n H; cbn [resolve allnames] in *.
+  induction p; intros e1 s a L1 L2 e2 fs cur ca n H; cbn [resolve_m allnames] in *.
   - reflexivity.
-  - rewrite IHp by (intros z Hz; apply H; right; exact Hz).
-    rewrite lookup_irrelevant by (apply H; left; reflexivity). reflexivity.
-  - rewrite IHp by (intros z Hz; apply H; right; exact Hz).
-    rewrite lookup_irrelevant by (apply H; left; reflexivity). reflexivity.
-  - rewrite IHp by (intros z Hz; apply H; right; exact Hz). reflexivity.
-  - pose proof (fun en fs cur ca m => IHp1 (en :: e1) s a names X e2 fs cur ca m
-                  (fun z Hz => H z (proj2 (in_app_iff _ _ _) (or_introl Hz)))) as E1. cbn [app] in E1. rewrite E1.
-    destruct (resolve ((n, false, lexdecls p1) :: e1 ++ (s, a, names) :: e2) fs n false (S n) p1) as [rb n1].
-    rewrite IHp2 by (intros z Hz; apply H; apply in_app_iff; right; exact Hz). reflexivity.
+  - rewrite (IHp e1 s a L1 L2) by (intros z Hz; apply H; right; exact Hz).
+    rewrite (lookup_ext x e1 s a L1 L2) by (apply H; left; reflexivity). reflexivity.
+  - rewrite (IHp e1 s a L1 L2) by (intros z Hz; apply H; right; exact Hz).
+    rewrite (lookup_ext x e1 s a L1 L2) by (apply H; left; reflexivity). reflexivity.
+  - rewrite (IHp e1 s a L1 L2) by (intros z Hz; apply H; right; exact Hz). reflexivity.
+  - assert (H1 : forall z, In z (allnames p1) -> mem z L1 = mem z L2) by (intros z Hz; apply H; apply in_app_iff; left; exact Hz).
+    assert (H2 : forall z, In z (allnames p2) -> mem z L1 = mem z L2) by (intros z Hz; apply H; apply in_app_iff; right; exact Hz).
+    ext1 IHp1 e1 H1. destruct (resolve_m _ _ _ _ _ p1). rewrite (IHp2 e1 s a L1 L2) by exact H2. reflexivity.
   - (* Func *)
-    assert (H1 : forall z, In z (allnames p1) -> In z X -> In z names).
+    assert (H1 : forall z, In z (allnames p1) -> mem z L1 = mem z L2).
     { intros z Hz. apply H. apply in_app_iff. right. apply in_app_iff. left. exact Hz. }
-    assert (H2 : forall z, In z (allnames p2) -> In z X -> In z names).
+    assert (H2 : forall z, In z (allnames p2) -> mem z L1 = mem z L2).
     { intros z Hz. apply H. apply in_app_iff. right. apply in_app_iff. right. apply in_app_iff. left. exact Hz. }
-    assert (H3 : forall z, In z (allnames p3) -> In z X -> In z names).
+    assert (H3 : forall z, In z (allnames p3) -> mem z L1 = mem z L2).
     { intros z Hz. apply H. apply in_app_iff. right. apply in_app_iff. right. apply in_app_iff. right. exact Hz. }
-    destruct nm as [f|].
-    + pose proof (fun en en2 fs cur ca m => IHp1 (en :: en2 :: e1) s a names X e2 fs cur ca m H1) as E1. cbn [app] in E1.
-      pose proof (fun en en2 fs cur ca m => IHp2 (en :: en2 :: e1) s a names X e2 fs cur ca m H2) as E2. cbn [app] in E2.
-      rewrite E1.
-      destruct (resolve ((n, false, headdecls p1) :: (n, true, [f]) :: e1 ++ (s, a, names) :: e2) n n false (S n) p1) as [rp n1].
-      rewrite E2.
-      destruct (resolve ((n, false, headdecls p1 ++ vardecls p2 ++ lexdecls p2) :: (n, true, [f]) :: e1 ++ (s, a, names) :: e2) n n false n1 p2) as [rb n2].
-      rewrite IHp3 by exact H3. reflexivity.
-    + pose proof (fun en fs cur ca m => IHp1 (en :: e1) s a names X e2 fs cur ca m H1) as E1. cbn [app] in E1.
-      pose proof (fun en fs cur ca m => IHp2 (en :: e1) s a names X e2 fs cur ca m H2) as E2. cbn [app] in E2.
-      rewrite E1.
-      destruct (resolve ((n, false, headdecls p1) :: e1 ++ (s, a, names) :: e2) n n false (S n) p1) as [rp n1].
-      rewrite E2.
-      destruct (resolve ((n, false, headdecls p1 ++ vardecls p2 ++ lexdecls p2) :: e1 ++ (s, a, names) :: e2) n n false n1 p2) as [rb n2].
-      rewrite IHp3 by exact H3. reflexivity.
+    destruct nm as [g|].
+    + ext1 IHp1 e1 H1. destruct (resolve_m _ _ _ _ _ p1). ext1 IHp2 e1 H2. destruct (resolve_m _ _ _ _ _ p2).
+      rewrite (IHp3 e1 s a L1 L2) by exact H3. reflexivity.
+    + ext1 IHp1 e1 H1. destruct (resolve_m _ _ _ _ _ p1). ext1 IHp2 e1 H2. destruct (resolve_m _ _ _ _ _ p2).
+      rewrite (IHp3 e1 s a L1 L2) by exact H3. reflexivity.
   - (* Arrow *)
-    assert (H1 : forall z, In z (allnames p1) -> In z X -> In z names).
+    assert (H1 : forall z, In z (allnames p1) -> mem z L1 = mem z L2).
     { intros z Hz. apply H. apply in_app_iff. left. exact Hz. }
-    assert (H2 : forall z, In z (allnames p2) -> In z X -> In z names).
+    assert (H2 : forall z, In z (allnames p2) -> mem z L1 = mem z L2).
     { intros z Hz. apply H. apply in_app_iff. right. apply in_app_iff. left. exact Hz. }
-    assert (H3 : forall z, In z (allnames p3) -> In z X -> In z names).
+    assert (H3 : forall z, In z (allnames p3) -> mem z L1 = mem z L2).
     { intros z Hz. apply H. apply in_app_iff. right. apply in_app_iff. right. exact Hz. }
-    pose proof (fun en fs cur ca m => IHp1 (en :: e1) s a names X e2 fs cur ca m H1) as E1. cbn [app] in E1.
-    pose proof (fun en fs cur ca m => IHp2 (en :: e1) s a names X e2 fs cur ca m H2) as E2. cbn [app] in E2.
-    rewrite E1.
-    destruct (resolve ((n, false, headdecls p1) :: e1 ++ (s, a, names) :: e2) n n false (S n) p1) as [rp n1].
-    rewrite E2.
-    destruct (resolve ((n, false, headdecls p1 ++ vardecls p2 ++ lexdecls p2) :: e1 ++ (s, a, names) :: e2) n n false n1 p2) as [rb n2].
-    rewrite IHp3 by exact H3. reflexivity.
+    ext1 IHp1 e1 H1. destruct (resolve_m _ _ _ _ _ p1). ext1 IHp2 e1 H2. destruct (resolve_m _ _ _ _ _ p2).
+    rewrite (IHp3 e1 s a L1 L2) by exact H3. reflexivity.
   - (* ArrowId *)
-    pose proof (fun en fs cur ca m => IHp1 (en :: e1) s a names X e2 fs cur ca m
-                  (fun z Hz => H z (or_intror (proj2 (in_app_iff _ _ _) (or_introl Hz))))) as E1. cbn [app] in E1.
-    rewrite E1.
-    destruct (resolve ((n, false, [x] ++ vardecls p1 ++ lexdecls p1) :: e1 ++ (s, a, names) :: e2) n n false (S n) p1) as [rb n1].
-    rewrite IHp2 by (intros z Hz; apply H; right; apply in_app_iff; right; exact Hz). reflexivity.
+    assert (H1 : forall z, In z (allnames p1) -> mem z L1 = mem z L2).
+    { intros z Hz. apply H. right. apply in_app_iff. left. exact Hz. }
+    assert (H2 : forall z, In z (allnames p2) -> mem z L1 = mem z L2).
+    { intros z Hz. apply H. right. apply in_app_iff. right. exact Hz. }
+    ext1 IHp1 e1 H1. destruct (resolve_m _ _ _ _ _ p1). rewrite (IHp2 e1 s a L1 L2) by exact H2. reflexivity.
   - (* Paren *)
-    rewrite IHp1 by (intros z Hz; apply H; apply in_app_iff; left; exact Hz).
-    destruct (resolve (e1 ++ (s, a, names) :: e2) fs cur ca (S n) p1) as [rh n1].
-    rewrite IHp2 by (intros z Hz; apply H; apply in_app_iff; right; exact Hz). reflexivity.
+    assert (H1 : forall z, In z (allnames p1) -> mem z L1 = mem z L2) by (intros z Hz; apply H; apply in_app_iff; left; exact Hz).
+    assert (H2 : forall z, In z (allnames p2) -> mem z L1 = mem z L2) by (intros z Hz; apply H; apply in_app_iff; right; exact Hz).
+    rewrite (IHp1 e1 s a L1 L2) by exact H1. destruct (resolve_m _ _ _ _ _ p1). rewrite (IHp2 e1 s a L1 L2) by exact H2. reflexivity.
   - (* For *)
-    assert (H1 : forall z, In z (allnames p1) -> In z X -> In z names).
+    assert (H1 : forall z, In z (allnames p1) -> mem z L1 = mem z L2).
     { intros z Hz. apply H. apply in_app_iff. left. exact Hz. }
-    assert (H2 : forall z, In z (allnames p2) -> In z X -> In z names).
+    assert (H2 : forall z, In z (allnames p2) -> mem z L1 = mem z L2).
     { intros z Hz. apply H. apply in_app_iff. right. apply in_app_iff. left. exact Hz. }
-    assert (H3 : forall z, In z (allnames p3) -> In z X -> In z names).
+    assert (H3 : forall z, In z (allnames p3) -> mem z L1 = mem z L2).
     { intros z Hz. apply H. apply in_app_iff. right. apply in_app_iff. right. exact Hz. }
-    pose proof (fun en fs cur ca m => IHp1 (en :: e1) s a names X e2 fs cur ca m H1) as E1. cbn [app] in E1.
-    pose proof (fun en en2 fs cur ca m => IHp2 (en :: en2 :: e1) s a names X e2 fs cur ca m H2) as E2. cbn [app] in E2.
-    rewrite E1.
-    destruct (resolve ((n, true, lexdecls p1) :: e1 ++ (s, a, names) :: e2) fs n true (S n) p1) as [rh n1].
-    rewrite E2.
-    destruct (resolve ((n, false, lexdecls p2) :: (n, true, lexdecls p1) :: e1 ++ (s, a, names) :: e2) fs n false n1 p2) as [rb n2].
-    rewrite IHp3 by exact H3. reflexivity.
+    ext1 IHp1 e1 H1. destruct (resolve_m _ _ _ _ _ p1). ext1 IHp2 e1 H2. destruct (resolve_m _ _ _ _ _ p2).
+    rewrite (IHp3 e1 s a L1 L2) by exact H3. reflexivity.
   - (* Catch *)
-    assert (H1 : forall z, In z (allnames p1) -> In z X -> In z names).
+    assert (H1 : forall z, In z (allnames p1) -> mem z L1 = mem z L2).
     { intros z Hz. apply H. apply in_app_iff. left. exact Hz. }
-    assert (H2 : forall z, In z (allnames p2) -> In z X -> In z names).
+    assert (H2 : forall z, In z (allnames p2) -> mem z L1 = mem z L2).
     { intros z Hz. apply H. apply in_app_iff. right. apply in_app_iff. left. exact Hz. }
-    assert (H3 : forall z, In z (allnames p3) -> In z X -> In z names).
+    assert (H3 : forall z, In z (allnames p3) -> mem z L1 = mem z L2).
     { intros z Hz. apply H. apply in_app_iff. right. apply in_app_iff. right. exact Hz. }
-    pose proof (fun en fs cur ca m => IHp1 (en :: e1) s a names X e2 fs cur ca m H1) as E1. cbn [app] in E1.
-    pose proof (fun en fs cur ca m => IHp2 (en :: e1) s a names X e2 fs cur ca m H2) as E2. cbn [app] in E2.
-    rewrite E1.
-    destruct (resolve ((n, false, headdecls p1) :: e1 ++ (s, a, names) :: e2) fs n false (S n) p1) as [rh n1].
-    rewrite E2.
-    destruct (resolve ((n, false, headdecls p1 ++ lexdecls p2) :: e1 ++ (s, a, names) :: e2) fs n false n1 p2) as [rb n2].
-    rewrite IHp3 by exact H3. reflexivity.
+    ext1 IHp1 e1 H1. destruct (resolve_m _ _ _ _ _ p1). ext1 IHp2 e1 H2. destruct (resolve_m _ _ _ _ _ p2).
+    rewrite (IHp3 e1 s a L1 L2) by exact H3. reflexivity.
   - (* Class *)
-    assert (H1 : forall z, In z (allnames p1) -> In z X -> In z names).
+    assert (H1 : forall z, In z (allnames p1) -> mem z L1 = mem z L2).
     { intros z Hz. apply H. apply in_app_iff. right. apply in_app_iff. left. exact Hz. }
-    assert (H2 : forall z, In z (allnames p2) -> In z X -> In z names).
+    assert (H2 : forall z, In z (allnames p2) -> mem z L1 = mem z L2).
     { intros z Hz. apply H. apply in_app_iff. right. apply in_app_iff. right. exact Hz. }
     destruct nm as [c|].
-    + pose proof (fun en fs cur ca m => IHp1 (en :: e1) s a names X e2 fs cur ca m H1) as E1. cbn [app] in E1.
-      rewrite E1.
-      destruct (resolve ((n, true, [c]) :: e1 ++ (s, a, names) :: e2) fs n false (S n) p1) as [rm n1].
-      rewrite IHp2 by exact H2. reflexivity.
-    + rewrite IHp1 by exact H1.
-      destruct (resolve (e1 ++ (s, a, names) :: e2) fs n false (S n) p1) as [rm n1].
-      rewrite IHp2 by exact H2. reflexivity.
+    + ext1 IHp1 e1 H1. destruct (resolve_m _ _ _ _ _ p1). rewrite (IHp2 e1 s a L1 L2) by exact H2. reflexivity.
+    + rewrite (IHp1 e1 s a L1 L2) by exact H1. destruct (resolve_m _ _ _ _ _ p1). rewrite (IHp2 e1 s a L1 L2) by exact H2. reflexivity.
+Qed.
+
+(* adding names that do not occur (unless the scope has them already) *)
+Lemma resolve_irrelevant p : forall e1 s a names X e2 fs cur ca n,
+  (forall x, In x (allnames p) -> In x X -> In x names) ->
+  resolve_m (e1 ++ (s, a, names ++ X) :: e2) fs cur ca n p = resolve_m (e1 ++ (s, a, names) :: e2) fs cur ca n p.
+Proof.
+  intros e1 s a names X e2 fs cur ca n H. apply resolve_m_ext. intros x Hx. rewrite mem_app.
+  destruct (mem x names) eqn:E1; [reflexivity|]. cbn [orb]. destruct (mem x X) eqn:E2; [|reflexivity].
+  apply mem_in in E2. apply (H x Hx) in E2. apply mem_in in E2. congruence.
 Qed.
 
 (* a scope without names is invisible (class bodies) *)
@@ -132,27 +111,25 @@ Qed.
 
 Ltac dn1 IH e1 := let E := fresh in
   pose proof (fun en s a e2 fs cur ca m => IH (en :: e1) s a e2 fs cur ca m) as E; cbn [app] in E; rewrite E; clear E.
-Ltac dn2 IH e1 := let E := fresh in
-  pose proof (fun en en' s a e2 fs cur ca m => IH (en :: en' :: e1) s a e2 fs cur ca m) as E; cbn [app] in E; rewrite E; clear E.
 
 Lemma resolve_drop_nil p : forall e1 s a e2 fs cur ca n,
-  resolve (e1 ++ (s, a, []) :: e2) fs cur ca n p = resolve (e1 ++ e2) fs cur ca n p.
+  resolve_m (e1 ++ (s, a, []) :: e2) fs cur ca n p = resolve_m (e1 ++ e2) fs cur ca n p.
 Proof.
-  induction p; intros e1 s a e2 fs cur ca n; cbn [resolve].
+  induction p; intros e1 s a e2 fs cur ca n; cbn [resolve_m].
   - reflexivity.
   - rewrite IHp, lookup_drop_nil. reflexivity.
   - rewrite IHp, lookup_drop_nil. reflexivity.
   - rewrite IHp. reflexivity.
-  - dn1 IHp1 e1. destruct (resolve _ _ _ _ _ p1). rewrite IHp2. reflexivity.
+  - dn1 IHp1 e1. destruct (resolve_m _ _ _ _ _ p1). rewrite IHp2. reflexivity.
   - destruct nm as [f|].
-    + dn2 IHp1 e1. destruct (resolve _ _ _ _ _ p1). dn2 IHp2 e1. destruct (resolve _ _ _ _ _ p2). rewrite IHp3. reflexivity.
-    + dn1 IHp1 e1. destruct (resolve _ _ _ _ _ p1). dn1 IHp2 e1. destruct (resolve _ _ _ _ _ p2). rewrite IHp3. reflexivity.
-  - dn1 IHp1 e1. destruct (resolve _ _ _ _ _ p1). dn1 IHp2 e1. destruct (resolve _ _ _ _ _ p2). rewrite IHp3. reflexivity.
-  - dn1 IHp1 e1. destruct (resolve _ _ _ _ _ p1). rewrite IHp2. reflexivity.
-  - rewrite IHp1. destruct (resolve _ _ _ _ _ p1). rewrite IHp2. reflexivity.
-  - dn1 IHp1 e1. destruct (resolve _ _ _ _ _ p1). dn2 IHp2 e1. destruct (resolve _ _ _ _ _ p2). rewrite IHp3. reflexivity.
-  - dn1 IHp1 e1. destruct (resolve _ _ _ _ _ p1). dn1 IHp2 e1. destruct (resolve _ _ _ _ _ p2). rewrite IHp3. reflexivity.
+    + dn1 IHp1 e1. destruct (resolve_m _ _ _ _ _ p1). dn1 IHp2 e1. destruct (resolve_m _ _ _ _ _ p2). rewrite IHp3. reflexivity.
+    + dn1 IHp1 e1. destruct (resolve_m _ _ _ _ _ p1). dn1 IHp2 e1. destruct (resolve_m _ _ _ _ _ p2). rewrite IHp3. reflexivity.
+  - dn1 IHp1 e1. destruct (resolve_m _ _ _ _ _ p1). dn1 IHp2 e1. destruct (resolve_m _ _ _ _ _ p2). rewrite IHp3. reflexivity.
+  - dn1 IHp1 e1. destruct (resolve_m _ _ _ _ _ p1). rewrite IHp2. reflexivity.
+  - rewrite IHp1. destruct (resolve_m _ _ _ _ _ p1). rewrite IHp2. reflexivity.
+  - dn1 IHp1 e1. destruct (resolve_m _ _ _ _ _ p1). dn1 IHp2 e1. destruct (resolve_m _ _ _ _ _ p2). rewrite IHp3. reflexivity.
+  - dn1 IHp1 e1. destruct (resolve_m _ _ _ _ _ p1). dn1 IHp2 e1. destruct (resolve_m _ _ _ _ _ p2). rewrite IHp3. reflexivity.
   - destruct nm as [c|].
-    + dn1 IHp1 e1. destruct (resolve _ _ _ _ _ p1). rewrite IHp2. reflexivity.
-    + rewrite IHp1. destruct (resolve _ _ _ _ _ p1). rewrite IHp2. reflexivity.
+    + dn1 IHp1 e1. destruct (resolve_m _ _ _ _ _ p1). rewrite IHp2. reflexivity.
+    + rewrite IHp1. destruct (resolve_m _ _ _ _ _ p1). rewrite IHp2. reflexivity.
 Qed.
